@@ -185,69 +185,70 @@ def run(ctx: Ctx) -> None:
 
 
 def split_rule(ctx: Ctx, rid: str = "R05.split") -> None:
+    """Every `lui r, {HI}` / `addi r, r, {LO}` pair the pseudo-instruction expander emits splits its source
+    value X as LO = X[0:12], HI = X[12:32] + X[11] (the carry that undoes addi's sign extension).
+
+    HI and LO are evaluated at the emitting statement from their backward slice (sa.sliceval) in the
+    bit-slice domain, so the three sites may share a helper, use temporaries, or write the carry as an
+    if, a conditional expression or an addition."""
+    from ..bitslice import Form, Inconclusive, NotABit
+    from ..pathsym import same_function
+    from ..sliceval import enclosing_blocks, forms_at
     m = ctx.model
-    r = ctx.rule(rid, "three clones of the hi/lo split agree and use the I-type geometry")
-    f = m.method("RiscvParser", "_process_pseudo_instructions", own=True)
-    copies = []
-    stmts = [n for n in ast.walk(f.node) if isinstance(n, ast.Assign) and ast.unparse(n.targets[0]) == "lui_imm"]
-    for a in stmts:
-        # find the block holding this statement and take the 3 statements that follow
-        for n in ast.walk(f.node):
-            for fld in ("body", "orelse"):
-                blk = getattr(n, fld, None)
-                if isinstance(blk, list) and a in blk:
-                    i = blk.index(a)
-                    copies.append(blk[i:i + 3])
-    if len(copies) != 3:
-        raise AnalysisError(f"{rid}: expected 3 copies of the lui/addi split, found {len(copies)}")
-    norm = []
-    for cp in copies:
-        src = None
-        v = cp[0].value
-        for x in ast.walk(v):
-            if isinstance(x, ast.Call) and ast.unparse(x.func) == "fixedint.UInt32" and x.args and isinstance(x.args[0], ast.Name):
-                src = x.args[0].id
-        if src is None:
-            raise AnalysisError(f"{rid}: split source variable not recognised in `{ast.unparse(v)}`")
-        text = "\n".join(ast.unparse(s) for s in cp)
-        import re
-        norm.append(re.sub(rf"\b{src}\b", "X", text))
-    labels = ["li", "la/load-by-name", "store-by-name"]
-    for i in (1, 2):
-        r.check(norm[i] == norm[0], f"clone|{labels[i]}", f.loc(copies[i][0]),
-                f"the {labels[i]} copy of the split differs from the li copy:\n{norm[i]}\n--- vs ---\n{norm[0]}")
-    # constants of the first copy (all equal by the clone check)
-    cp = copies[0]
-    hi, lo, iff = cp[0].value, cp[1].value, cp[2]
-    ok_hi = isinstance(hi, ast.BinOp) and isinstance(hi.op, ast.RShift) and const_int(hi.right) == 12 and ast.unparse(hi.left).startswith("int(fixedint.UInt32(")
-    r.check(ok_hi, "constants|upper", f.loc(cp[0]), f"upper part is `{ast.unparse(hi)}`, expected int(UInt32(x)) >> 12")
-    ok_lo = isinstance(lo, ast.BinOp) and isinstance(lo.op, ast.BitAnd) and const_int(lo.right) == 0xFFF and ast.unparse(lo.left).startswith("int(fixedint.UInt32(")
-    r.check(ok_lo, "constants|lower", f.loc(cp[1]), f"lower part is `{ast.unparse(lo)}`, expected int(UInt32(x)) & 0xFFF")
-    ok_if = isinstance(iff, ast.If) and len(iff.body) == 1 and isinstance(iff.body[0], ast.AugAssign) and ast.unparse(iff.body[0].target) == "lui_imm" \
-        and isinstance(iff.body[0].op, ast.Add) and const_int(iff.body[0].value) == 1 and not iff.orelse
-    thr = None
-    if ok_if:
-        t = iff.test
-        cmps = t.values if isinstance(t, ast.BoolOp) and isinstance(t.op, ast.Or) else [t]
-        for c in cmps:
-            if isinstance(c, ast.Compare) and ast.unparse(c.left) == "addi_imm" and isinstance(c.ops[0], ast.Gt):
-                thr = const_int(c.comparators[0])
-            elif isinstance(c, ast.Compare) and ast.unparse(c.left) == "addi_imm" and isinstance(c.ops[0], ast.GtE):
-                thr = const_int(c.comparators[0]) - 1 if const_int(c.comparators[0]) is not None else None
-            elif isinstance(c, ast.Compare) and ast.unparse(c.left) == "addi_imm" and isinstance(c.ops[0], ast.Lt) and (const_int(c.comparators[0]) or 0) <= 0:
-                pass  # dead alternative (the low part is never negative)
-            else:
-                ok_if = False
-    r.check(ok_if and thr == 2047, "constants|carry", f.loc(iff), "carry compensation must be `lui_imm += 1` exactly when the low 12 bits exceed "
-            f"2047 (the addi immediate is sign-extended from bit 11); found threshold {thr}")
+    r = ctx.rule(rid, "every lui/addi pair splits its source as X[12:32] + X[11] and X[0:12] (bit-slice evaluation of the slice)")
+    f = m.method("RiscvParser", "_process_pseudo_instructions")
+
+    def templates(prefix: str):
+        out = []
+        for st in ast.walk(f.node):
+            if isinstance(st, ast.stmt) and not isinstance(st, (ast.If, ast.For, ast.While, ast.Try, ast.With, ast.FunctionDef, ast.Match)):
+                for js in ast.walk(st):
+                    if isinstance(js, ast.JoinedStr) and js.values and isinstance(js.values[0], ast.Constant) \
+                            and str(js.values[0].value).lower().startswith(prefix):
+                        holes = [v.value for v in js.values if isinstance(v, ast.FormattedValue)]
+                        out.append((st, js, holes))
+        return out
+
+    luis = templates("lui ")
+    addis = [(st, js, h) for st, js, h in templates("addi ") if len(h) == 3]
+    if len(luis) < 3:
+        raise AnalysisError(f"{rid}: expected the three lui/addi expansions (li, la/load-by-name, store-by-name), found {len(luis)} lui templates")
+    labels = {0: "li", 1: "la/load-by-name", 2: "store-by-name"}
+    for n, (st, js, holes) in enumerate(luis):
+        key = f"split|{labels.get(n, n)}"
+        blk = enclosing_blocks(f.node, st)[0][0]
+        mate = next(((s2, j2, h2) for s2, j2, h2 in addis if any(s2 is x or any(y is s2 for y in ast.walk(x)) for x in blk)), None)
+        if mate is None or len(holes) != 2:
+            r.check(False, key, f.loc(st), f"`{ast.unparse(js)}` is not followed by `addi r, r, <low part>` in the same branch")
+            continue
+        hi_e, lo_e = holes[-1], mate[2][-1]
+        try:
+            (hi, lo), env = forms_at(m, f, st, [hi_e, lo_e])
+        except NotABit as exc:
+            r.check(False, key, f.loc(st), f"{labels.get(n, n)} expansion: the carry into the upper part is not bit 11 of the low part ({exc}); "
+                    "addi sign-extends its 12-bit immediate, so lui needs +1 exactly when the low part exceeds 2047")
+            continue
+        except Inconclusive as exc:
+            raise AnalysisError(f"{rid}: the operands of `{ast.unparse(js)}` are outside the bit-slice domain: {exc}")
+        srcs = sorted({v for (v, _b) in list(hi.bits) + list(lo.bits)} | {v for (v, _b) in list(hi.tails) + list(lo.tails)})
+        ok = len(srcs) == 1
+        x = srcs[0] if srcs else "?"
+        if ok:
+            ok = lo == Form.field(x, 0, 12) and hi == Form.field(x, 12, 32) + Form.field(x, 11, 12)
+        r.check(ok, key, f.loc(st), f"{labels.get(n, n)} expansion emits lui {hi.describe()} / addi {lo.describe()}; a lui/addi pair that "
+                f"reproduces {x} needs addi {x}[0:12] and lui {x}[12:32] + {x}[11] (addi sign-extends its 12 bits, so bit 11 must be carried "
+                "into the upper part)", {"source": x})
+        # both instructions name the same register
+        r.check(ast.dump(holes[0]) == ast.dump(mate[2][0]) == ast.dump(mate[2][1]), f"{key}|register", f.loc(mate[0]),
+                f"`{ast.unparse(js)}` and `{ast.unparse(mate[1])}` do not build the value in one register")
     # li chooses the short form exactly for 12-bit signed constants
-    li_if = None
-    for n in ast.walk(f.node):
-        if isinstance(n, ast.If) and "imm > 2047 or imm < -2048" in " ".join(ast.unparse(n.test).split()) and "addi_imm" not in ast.unparse(n.test):
-            li_if = n
-    r.check(li_if is not None, "li|short-form", f.loc(), "li no longer uses a single addi exactly for constants in -2048..2047")
-    # expansion templates use the split values
-    tpls = [ast.unparse(x) for x in ast.walk(f.node) if isinstance(x, ast.JoinedStr)]
-    r.check(sum(1 for t in tpls if t.startswith("f'lui {") and t.endswith(", {lui_imm}'")) == 3, "templates|lui", f.loc(), "not all three expansions emit `lui r, {lui_imm}`")
-    r.check(sum(1 for t in tpls if t.startswith("f'addi {") and t.endswith(", {addi_imm}'")) == 3, "templates|addi", f.loc(), "not all three expansions emit `addi r, r, {addi_imm}`")
-    r.floor(8)
+    found = False
+    for nd in ast.walk(f.node):
+        if isinstance(nd, ast.If) and {x.id for x in ast.walk(nd.test) if isinstance(x, ast.Name)} == {"imm"}:
+            ok, _ = same_function(m, nd.test, "imm > 2047 or imm < -2048", {})
+            ok2, _ = same_function(m, nd.test, "not (imm > 2047 or imm < -2048)", {})
+            found = found or ok or ok2
+    r.check(found, "li|short-form", f.loc(), "li no longer uses a single addi exactly for constants in -2048..2047")
+    r.floor(7)
+
+
